@@ -103,3 +103,59 @@ Example C19_example :
   | _ => false
   end = true.
 Proof. vm_compute. reflexivity. Qed.
+
+(** ---- guards and the order / scoping of the effects of the remote loader, REGENERATED from datasets/_base.py
+     (Gen/CacheSkeleton.v), are what the small-step model is built from ---- *)
+From TW Require Import Model.Cache Gen.CacheSkeleton Proofs.CacheSkeletonProofs.
+
+Theorem C19_generated_start : forall sha parse r fl f,
+  pstep sha parse r fl f PStart EStep =
+    if gen_download_cond (download_if_missing fl) (download_even_if_available fl) (avail f r)
+    then (f, Some (PFetching (n_retries fl)))
+    else if gen_missing_cond (download_if_missing fl) (download_even_if_available fl) (avail f r)
+    then (f, Some (PDone (Raise OSError)))
+    else (f, Some PReadCache).
+Proof. exact skeleton_start. Qed.
+Print Assumptions C19_generated_start.
+
+Theorem C19_generated_retry : forall sha parse r fl f k,
+  pstep sha parse r fl f (PFetching k) ENetFail =
+    if gen_giveup (Z.of_nat k) then (f, Some (PDone (Raise OSError)))
+    else (f, Some (PFetching (Z.to_nat (gen_next_retries (Z.of_nat k))))).
+Proof. exact skeleton_retry. Qed.
+Print Assumptions C19_generated_retry.
+
+Theorem C19_generated_checksum : forall sha parse r fl f b,
+  pstep sha parse r fl f (PFetched b) EStep =
+    if gen_checksum_reject (validate_checksum fl) (Nat.eqb (sha b) (r_digest r))
+    then (f, Some (PDone (Raise OSError))) else (f, Some (PVerified b)).
+Proof. exact skeleton_checksum. Qed.
+Print Assumptions C19_generated_checksum.
+
+Theorem C19_generated_chain : forall sha parse r fl f b d,
+  (validate_checksum fl && negb (Nat.eqb (sha b) (r_digest r))) = false -> parse (gzip fl) b = Some d ->
+  pstep sha parse r fl f (PFetching (n_retries fl)) (ENetOk b) = (f, Some (PFetched b)) /\
+  pstep sha parse r fl f (PFetched b) EStep = (f, Some (PVerified b)) /\
+  pstep sha parse r fl f (PVerified b) EStep = (f, Some (PParsed d)) /\
+  pstep sha parse r fl f (PParsed d) EStep = (f, Some (PDumped d)) /\
+  pstep sha parse r fl f (PDumped d) EStep = (fs_set f (r_slot r) d, Some (PRenamed d)) /\
+  pstep sha parse r fl (fs_set f (r_slot r) d) (PRenamed d) EStep = (fs_set f (r_slot r) d, Some (PDone (Ok d))).
+Proof. exact skeleton_chain. Qed.
+Print Assumptions C19_generated_chain.
+
+From Coq Require Import String.
+Open Scope string_scope.
+Theorem C19_generated_structure :
+  gen_download_effects = ["makedirs"; "tmpdir"; "fetch"; "parse"; "dump"; "rename"; "cleanup"] /\
+  gen_tmp_parent = "dataset_dir" /\
+  sassoc "dirname" gen_fetch_kwargs = Some gen_tmp_var /\ gen_fetch_path_in_dirname = true /\
+  gen_tmp_file = (gen_tmp_var, "dataset_filename") /\ gen_dump_to_tmp_file = true /\
+  sassoc "n_retries" gen_fetch_kwargs = Some "n_retries" /\ sassoc "validate_checksum" gen_fetch_kwargs = Some "validate_checksum" /\
+  gen_parse_sources = [("gzip", "archive_path"); ("plain", "archive_path")] /\
+  gen_rename = ["dataset_tmp_file_path"; "dataset_file_path"] /\
+  gen_slot_path = ["data_home"; "dataset_folder"; "dataset_filename"] /\
+  gen_read_cache = (true, "dataset_file_path") /\
+  gen_retry_caught = ["URLError"; "TimeoutError"] /\ gen_checksum_exn = "OSError" /\ gen_missing_exn = "OSError".
+Proof. exact skeleton_structure. Qed.
+Print Assumptions C19_generated_structure.
+Close Scope string_scope.
